@@ -303,3 +303,9 @@ func Guard(m interface{}, mu interface{}, id string) {}
 // harness' main one may only access with sync/atomic operations or while write-holding *mu
 // (natively the race detector plays this role).
 func Watch(p interface{}, mu interface{}, id string) {}
+
+// StackDepth is the number of frames on the calling goroutine's stack.
+func StackDepth() int {
+	pcs := make([]uintptr, 8192)
+	return runtime.Callers(0, pcs)
+}
